@@ -6,19 +6,21 @@ Local Open Scope N_scope.
 
 Definition run (c : sexp) : sexp :=
   match c with
-  | SL [SN cr; SN ah; SN fp; SN cx; chain; sni; asn] =>
+  | SL [SN cr; SN ah; SN fp; SN cx; SN tr; SN iss; sni; asn] =>
       let cro := match cr with 0 => Some CRDefault | 1 => Some CRRequired | 2 => Some CROptional | 3 => Some CRNone | _ => None end in
       let aho := match ah with 0 => Some AHUnset | 1 => Some AHFalse | 2 => Some AHName | _ => None end in
       let fpo := match fp with 0 => Some FPUnset | 1 => Some FPRight | 2 => Some FPWrong | 3 => Some FPBadLength | _ => None end in
       let cxo := match cx with 0 => Some CtxNone | 1 => Some CtxChecking | 2 => Some CtxNotChecking | _ => None end in
-      match cro, aho, fpo, cxo, as_bool chain, as_bool sni, as_bool asn with
-      | Some cr, Some ah, Some fp, Some cx, Some chain, Some sni, Some asn =>
-          match connect (mkSettings cr ah fp cx) (mkPeer chain sni asn) with
+      let tro := match tr with 0 => Some TFile | 1 => Some TDir | 2 => Some TData | 3 => Some TNothing | _ => None end in
+      let iso := match iss with 0 => Some IConfigured | 1 => Some ISystem | 2 => Some IUnknown | _ => None end in
+      match cro, aho, fpo, cxo, tro, iso, as_bool sni, as_bool asn with
+      | Some cr, Some ah, Some fp, Some cx, Some tr, Some iss, Some sni, Some asn =>
+          match connect (mkSettings cr ah fp cx tr) (mkPeer iss sni asn) with
           | Sent v w => SL [SN 1; SN 0; s_bool w; SL [s_bool v]]
           | Refused => SL [SN 0; SN 1; SN 0; SL [SN 0]]
           | Misconfigured => SL [SN 0; SN 3; SN 0; SL [SN 0]]
           end
-      | _, _, _, _, _, _, _ => s_bad_case
+      | _, _, _, _, _, _, _, _ => s_bad_case
       end
   | _ => s_bad_case
   end.
